@@ -42,13 +42,24 @@ package openapi3
 //@     p.Name != "" && knownIn(p.In) && (p.In == "path" ==> p.Required)
 //@  && styleAllowed(p.In, effStyle(p), effExplode(p))
 //@  && ((p.Schema == nil) != (len(p.Content) == 0))
+//@  && !(p.Schema != nil && p.Example != nil && p.Examples != nil)
 //@  && len(p.Content) <= 1
 
 //@ func WithValidationOptions
 //@   modifies nothing
+// the options in effect are the caller's (carried by the context) or a private fresh object: state
+// written into them by one validation (request/response mode of example checks) cannot leak into
+// another validation that was given no options
+// (a *ValidationOptions held by a context was stored by WithValidationOptions under the unexported
+// key and is not nil: assumed, listed)
+//@ extend iface (context.Context).Value
+//@   ensures typeof(result) == type *openapi3.ValidationOptions ==> cast(ptr(result), type *openapi3.ValidationOptions) != nil
 //@ func getValidationOptions
+//@   assuming ctx != nil
 //@   modifies nothing
 //@   ensures result != nil
+//@   ensures [private-or-from-context] fresh(result) || ctxHolds(ctx, ptr(result))
+//@   tag C04
 //@ func (Content).Validate
 //@   modifies *
 //@   preserves @C04 Parameter.*, SerializationMethod.*, *bool, MediaType.*, map[string]*Encoding, Encoding.*, map[string]*HeaderRef, []string
@@ -106,10 +117,11 @@ package openapi3
 //@   preserves @C04 []string, Paths.m
 
 //@ func (*Paths).Map
-//@   requires paths != nil
 //@   modifies nothing
 //@   loop 0 invariant fresh(m) && m != nil && (forall k string :: seen(k) <==> has(m, k))
-//@   ensures fresh(result) && (forall k string :: has(result, k) <==> has(paths.m, k))
+//@   ensures fresh(result) && result != nil
+//@   ensures paths != nil ==> (forall k string :: has(result, k) <==> has(paths.m, k))
+//@   ensures paths == nil ==> (forall k string :: !has(result, k))
 //@   option safety-tags C20
 //@   tag C04
 
